@@ -60,7 +60,8 @@ func newRun(id, tier string, seed int64) *Run {
 		failTool("mkdtemp: %v", err)
 	}
 	return &Run{ID: id, Tier: tier, Seed: seed, Start: time.Now(), Scratch: sc,
-		cov: map[string]any{}, known: map[string]int{}, knownSeen: map[string]string{}, level: "model_checking"}
+		cov: map[string]any{}, known: map[string]int{}, knownSeen: map[string]string{}, level: "model_checking",
+		assume: []string{"the model is checked for the small constants recorded in coverage; the code is tested against it, not proved"}}
 }
 
 func (r *Run) cleanup() { os.RemoveAll(r.Scratch) }
